@@ -360,6 +360,24 @@ def handle (op : String) (req : Json) : R Json := do
       ("layer_spec", Json.arr layerSpecs.toArray)] ++ jWarm h ++ recReply c given
       ++ readsReply (layers.map (Arr2.map (fun px => List.zipWith (fun (v : Int) (f : String × String) => (v : Rat) * fieldScale fscale f.2) px stack.fields)))
            stack.names (calNow cal0 evs) c reads))
+  | "c09.valid" =>
+    -- `check_config_valid(config)` for configurations OTHER than the one the object holds: each `cfg` (constructor inputs +
+    -- changes) against the layer shapes alone
+    let shapes ← getList parseNatPair req "shapes"
+    let layers : List (Arr2 Unit) := shapes.map (fun rc => { rows := rc.1, cols := rc.2, get := fun _ _ => () })
+    let cfgs ← fld req "cfgs" >>= asArr
+    let mut out : Array Json := #[]
+    for cj in cfgs do
+      let h ← parseSrrHist cj
+      let c := h.cfg
+      let m := c.magnification
+      let (l0, s0, l1, s1) := match layers[0]?, layers[1]? with
+        | some d0, some d1 => (d0.rows, d0.cols, d1.rows, d1.cols)
+        | _, _ => (0, 0, 0, 0)
+      out := out.push (jObj ([("valid", jOpt jBool (validForData c m layers)),
+        ("valid_spec", jBool (validSpec (warmupSpec h.seconds h.scantime) (magInt m) l0 s0 l1 s1)),
+        ("integer_mag", jBool (intMag m)), ("mag", jNat (magInt m))] ++ jWarm h))
+    pure (jObj [("configs", Json.arr out)])
   | "c09.stack" =>
     -- the changes alone: fields and layer shapes after every prefix of `stack_ops` (`null` from the first change on
     -- that is outside the model: pewlib raises or leaves the object half changed)
